@@ -707,6 +707,6 @@ META = dict(
         "three conditions (last note of the column / was a hit / at least the threshold) equals the stated rule; the "
         "function works on a deep copy (effect analysis) and reassigns only hits and holds through their own list "
         "classes; and for every chart class the lists selected by the (HitList, HoldList) filter are exactly the lists "
-        "rewritten."),
+        "rewritten. 'was a hit' is the absence of a length, not its sign (R2)."),
     not_decided="notes stacked at one time in one column (either processing order accepted), float comparison at the threshold",
 )
